@@ -14,11 +14,11 @@ PERSISTENT = {"val", "val2", "map", "omap"}
 # ----------------------------------------------------------------------------- generation
 
 def gen_scripts(wd, n, maxlen, seed, nremotes=2, caps=(16, 64, 4096), vlanes=("val",), mlanes=(), slanes=(),
-                usecmd=False, keys=(1, 2), faults=(), tag="env", burst=False):
+                usecmd=False, keys=(1, 2), faults=(), tag="env", burst=False, advances=()):
     """n behaviours of AgentEnv.tla by TLC simulation (seeded)."""
     consts = {"NRemotes": nremotes, "MaxLen": maxlen, "Caps": set(caps), "VLanes": set(vlanes),
               "MLanes": set(mlanes), "SLanes": set(slanes), "UseCmd": usecmd, "Keys": set(keys),
-              "Faults": set(faults), "Burst": burst}
+              "Faults": set(faults), "Burst": burst, "Advances": set(advances)}
     c = core.cfg(constants=consts)
     r = core.run_tlc("AgentEnv", c, os.path.join(wd, tag), workers=1, simulate="num=%d" % n,
                      extra=["-depth", str(2 * maxlen + 4), "-seed", str(seed)], coverage=False, timeout=600)
@@ -468,4 +468,27 @@ def proj_persist(log, keys=(1, 2, 3)):
                 maps[x] = [d.get(kk, -1) for kk in keys] if not extra else [-777 for _ in keys]
             out.append({"e": "start", "first": first, "vals": vals, "maps": maps})
             first = False
+    return out
+
+
+# ----------------------------------------------------------------------------- inactivity (use of the timeout coordinator)
+
+def proj_inactivity(log):
+    """events of Trace_Inactivity.tla"""
+    out = [{"e": "reset"}]
+    timed_out = False
+    for e in log:
+        k = e["e"]
+        if k in ("attach", "req"):
+            out.append({"e": "act"})
+        elif k == "advance":
+            out.append({"e": "adv", "ms": e["ms"]})
+        elif k == "closed":
+            if e.get("reason") == "AgentTimedOut":
+                timed_out = True
+        elif k == "stopped":
+            out.append({"e": "stopped", "timedout": bool(e.get("spontaneous")) and timed_out})
+        elif k in ("restart", "killed"):
+            break
+    out.append({"e": "end"})
     return out
